@@ -5,7 +5,7 @@
    identity level: [pipeline] follows apimachinery's tryUpgrade path (all headers cloned, X-Forwarded-For
    appended, WrapRequest of the endpoint's upgrade transport, no bearer / user-agent wrapper); the tunnel
    after "101 Switching Protocols" is not modelled. *)
-From KG Require Import Prelude C02_Model C02_Spec C02_Proofs.
+From KG Require Import Prelude C02_Model C02_Spec C02_Proofs C02_HistModel C02_HistSpec C02_HistProofs.
 Open Scope Z_scope.
 Open Scope string_scope.
 Open Scope list_scope.
@@ -78,7 +78,35 @@ Theorem C02_model_meets_spec : forall token ip h id deny,
 Proof. exact model_meets_spec. Qed.
 Print Assumptions C02_model_meets_spec.
 
+(* Histories with the multi-cluster SubjectAccessReview authorizer (per-host decision caches, dropped when
+   the cluster that created them is stopped): for every history of cluster creations, deletions,
+   re-creations under the same name (same or other server names, other RBAC), policy changes, time steps and
+   requests - without a server name moving between two LIVE clusters - every request is decided by the
+   incarnation that owns its host at that moment:
+     fst: a forwarded impersonation goes to that incarnation, carries exactly the requested Impersonate-User,
+          and that incarnation's policy allows it now or it answered "allow" within the allow-TTL;
+     snd: otherwise the request is answered 403 and nothing is forwarded.
+   ([hcheck] is the executable specification the check evaluates on the real observations.) *)
+Theorem C02_decision_of_current_cluster : forall attl dttl ops,
+  forallb not_move ops = true ->
+  hcheck attl world0 [] (combine ops (hrun attl dttl hstate0 ops)) = (true, true).
+Proof. exact decision_of_current_cluster. Qed.
+Print Assumptions C02_decision_of_current_cluster.
+
 (* ---- non-vacuity *)
+(* the first decision is cached through an alias, the cluster is deleted and re-created with an RBAC that
+   denies: the re-created cluster is asked and the request is refused *)
+Example C02_decision_of_current_cluster_nonvacuous :
+  let ops := [HCreate "a" ["h"] [(("alice", "bob"), AAllow)]; HReq "h" "alice" "bob"; HReq "h" "alice" "bob";
+              HDelete "a"; HCreate "a" ["h"] [(("alice", "bob"), ADeny)]; HReq "h" "alice" "bob";
+              HPolicy "a" [(("alice", "bob"), AAllow)]; HAdvance 31; HReq "a" "alice" "bob"] in
+  forallb not_move ops = true /\
+  hrun 300 30 hstate0 ops =
+    [mkHObs true 0 [] []; mkHObs true 200 [(1, ["bob"])] [(1, ("alice", "bob"), AAllow)]; mkHObs true 200 [(1, ["bob"])] [];
+     mkHObs true 0 [] []; mkHObs true 0 [] []; mkHObs true 403 [] [(2, ("alice", "bob"), ADeny)];
+     mkHObs true 0 [] []; mkHObs true 0 [] []; mkHObs true 200 [(2, ["bob"])] [(2, ("alice", "bob"), AAllow)]].
+Proof. vm_compute. split; reflexivity. Qed.
+
 Definition ex_headers : headers :=
   [("Authorization", ["Bearer client"]); ("Impersonate-Extra-Scopes%2fx", ["view"]); ("Impersonate-Group", ["dev"; "ops"]);
    ("Impersonate-Uid", ["9"]); ("Impersonate-User", ["bob"]); ("X-Custom", ["1"])].
